@@ -190,7 +190,20 @@ func c08Check(in c08Input) (key, what string) {
 		return "c08-error", "restoring failed: " + err.Error()
 	}
 	if out != in.Src {
-		return "c08-bytes", "unedited decorate + import-managed restore changed the file:\n" + firstDiff(in.Src, out)
+		k := "c08-bytes"
+		// the recorded finding duplicate-path-import (C07): one path imported twice
+		paths := map[string]int{}
+		if pf, perr := parser.ParseFile(token.NewFileSet(), "", in.Src, parser.ImportsOnly); perr == nil {
+			for _, is := range pf.Imports {
+				paths[is.Path.Value]++
+			}
+		}
+		for _, n := range paths {
+			if n > 1 {
+				k = "duplicate-path-import"
+			}
+		}
+		return k, "unedited decorate + import-managed restore changed the file:\n" + firstDiff(in.Src, out)
 	}
 	dec2 := decorator.NewDecoratorWithImports(token.NewFileSet(), "example.com/self", goastNew())
 	f2, err := dec2.Parse(out)
@@ -207,6 +220,8 @@ func c08Check(in c08Input) (key, what string) {
 func c08Prop(c *Ctx) {
 	c.Res.Rule = "hand-written canonical files (aliased, blank, cgo, multi-block, commented specs; qualified identifiers with comments and line breaks around the dot; generic constraints) + canonical $GOROOT/src files with imports, decorated with the goast resolver and restored with guess (seeded with accurate names) and simple resolvers; non-trivial = distinct (file, restorer) that decorates without error"
 	srcs := append([]string{}, c08Sources...)
+	// the recorded finding duplicate-path-import
+	srcs = append(srcs, "package a\n\nimport (\n\t\"unsafe\"\n\t_ \"unsafe\"\n)\n\nvar _ = unsafe.Sizeof(0)\n")
 	if b, err := format.Source([]byte(c08Positions)); err == nil {
 		srcs = append(srcs, string(b))
 	} else {
